@@ -388,8 +388,9 @@ func c04Run(rc *RunCtx, params any) {
 
 		return out
 	}
-	pair.StartHandshakes(90 * time.Second)
-	s.Run(pair.BothDone, 2*time.Minute)
+	// the link is loss-free: a handshake that can complete does so within a few round trips
+	pair.StartHandshakes(12 * time.Second)
+	s.Run(pair.BothDone, 15*time.Second)
 	switch {
 	case fragmented > 0:
 		rc.Note("target-fragmented", "")
